@@ -117,28 +117,32 @@ def utf8Size (bs : Bytes) : Nat :=
     else 0
   | [] => 0
 
+/-- the escape sequence of one ASCII byte (`none`: written as it is) -/
+def asciiEscape (b : UInt8) : Option Bytes :=
+  if b = 0x22 ∨ b = 0x5c then some [0x5c, b]
+  else if b = 0x08 then some [0x5c, 0x62]
+  else if b = 0x0c then some [0x5c, 0x66]
+  else if b = 0x0a then some [0x5c, 0x6e]
+  else if b = 0x0d then some [0x5c, 0x72]
+  else if b = 0x09 then some [0x5c, 0x74]
+  else if b < 0x20 ∨ b = 0x3c ∨ b = 0x3e ∨ b = 0x26 then some ([0x5c, 0x75, 0x30, 0x30] ++ hexByte b.toNat)
+  else none
+
+def escapeOrSelf (b : UInt8) : Bytes := match asciiEscape b with | some e => e | none => [b]
+
 def jsonQuoteBody : Nat → Bytes → Bytes
   | 0, _ => []
   | _, [] => []
   | fuel + 1, b :: rest =>
     if b < 0x80 then
-      let esc : Bytes :=
-        if b = 0x22 ∨ b = 0x5c then [0x5c, b]
-        else if b = 0x08 then str "\\b"
-        else if b = 0x0c then str "\\f"
-        else if b = 0x0a then str "\\n"
-        else if b = 0x0d then str "\\r"
-        else if b = 0x09 then str "\\t"
-        else if b < 0x20 ∨ b = 0x3c ∨ b = 0x3e ∨ b = 0x26 then str "\\u00" ++ hexByte b.toNat
-        else [b]
-      esc ++ jsonQuoteBody fuel rest
+      escapeOrSelf b ++ jsonQuoteBody fuel rest
     else
       let n := utf8Size (b :: rest)
-      if n = 0 then str "\\ufffd" ++ jsonQuoteBody fuel rest
+      if n = 0 then [0x5c, 0x75, 0x66, 0x66, 0x66, 0x64] ++ jsonQuoteBody fuel rest        -- \ufffd
       else
         let enc := (b :: rest).take n
-        if enc = [0xE2, 0x80, 0xA8] then str "\\u2028" ++ jsonQuoteBody fuel (rest.drop (n - 1))
-        else if enc = [0xE2, 0x80, 0xA9] then str "\\u2029" ++ jsonQuoteBody fuel (rest.drop (n - 1))
+        if enc = [0xE2, 0x80, 0xA8] then [0x5c, 0x75, 0x32, 0x30, 0x32, 0x38] ++ jsonQuoteBody fuel (rest.drop (n - 1))
+        else if enc = [0xE2, 0x80, 0xA9] then [0x5c, 0x75, 0x32, 0x30, 0x32, 0x39] ++ jsonQuoteBody fuel (rest.drop (n - 1))
         else enc ++ jsonQuoteBody fuel (rest.drop (n - 1))
 
 def jsonQuote (b : Bytes) : Bytes := [0x22] ++ jsonQuoteBody (b.length + 1) b ++ [0x22]
